@@ -55,10 +55,17 @@ def err_message(val):
     return None, None
 
 
-def stale_copy(leaf):
-    """a clone of the receiver taken before the last write to it"""
+def stale_copy(leaf, body=None):
+    """the returned clone of the receiver was taken before the last write to it.  Clones that are not returned (e.g. the discarded
+    result of another setter called for its effect) do not count: the returned one is the clone call the return place is defined by."""
+    from sa import local
     last_write = max([i for i, e in enumerate(leaf.events) if e["k"] == "write"], default=-1)
     clones = [i for i, e in enumerate(leaf.events) if e["k"] == "call" and e["callee"].endswith("Clone>::clone")]
+    if body is not None:
+        blocks = {x[3] for x in local.walk(local.Defs(body).local(0)) if x[0] == "call" and x[1].endswith("Clone>::clone") and len(x) > 3}
+        mine = [i for i in clones if leaf.events[i].get("fn") == body.path and leaf.events[i].get("block") in blocks]
+        if mine:
+            clones = mine
     return bool(clones) and min(clones) < last_write
 
 
@@ -70,8 +77,12 @@ def check_binding(ctx, lib, rid_prefix, methods, name_of, self_names, expected_r
 
     def inl(n):
         # private helpers of the binding module are part of the setter's body
+        # ... and so are the binding's own setters (one written in terms of others)
         x = lib.body(n)
-        return x is not None and not x.is_pub and x.file in files and x.kind in ("fn", "assoc_fn") and not x.impl_trait
+        if x is None or x.file not in files or x.kind not in ("fn", "assoc_fn") or x.impl_trait:
+            return False
+        return not x.is_pub or x.path in own
+    own = {b.path for b in methods.values()}
     m = ccp.Machine([lib], inline=inl)
     n_ok = 0
     for setter, sp in api["setters"].items():
@@ -101,7 +112,7 @@ def check_binding(ctx, lib, rid_prefix, methods, name_of, self_names, expected_r
             if w != core_w:
                 ctx.violation(rid, (b.path, "writes"), "binding writes %s, the library's %s writes %s" % (w, setter, core_w), b.loc())
                 continue
-            if stale_copy(rets[0]):
+            if stale_copy(rets[0], b):
                 ctx.violation(rid, (b.path, "stale copy"), "the returned copy is taken before the setting is stored: the caller receives a builder without it", b.loc())
                 continue
             if not expected_return(rets[0].value, False):
@@ -143,7 +154,7 @@ def check_binding(ctx, lib, rid_prefix, methods, name_of, self_names, expected_r
             if msg != sp["panic_if_zero"]:
                 ctx.violation(rid2, (b.path, "message"), "error message is %r, the library's message is %r" % (msg, sp["panic_if_zero"]), b.loc())
                 continue
-            if stale_copy(okl):
+            if stale_copy(okl, b):
                 ctx.violation(rid2, (b.path, "stale copy"), "the returned copy is taken before the threshold is stored", b.loc())
                 continue
             if not expected_return(okl.value, True):
